@@ -298,20 +298,20 @@ func c18Reference(f c18Feat) (string, int, []int) {
 	}
 	landmark := map[string]bool{"application": true, "banner": true, "complementary": true, "contentinfo": true, "form": true, "main": true, "navigation": true, "search": true}
 	rules := []rule{
-		{f.editable, "layout"},                        // 1 inside an editable area
-		{f.tableRole == "presentation", "layout"},     // 2
+		{f.editable, "layout"},                    // 1 inside an editable area
+		{f.tableRole == "presentation", "layout"}, // 2
 		{f.tableRole == "grid" || f.tableRole == "treegrid" || landmark[f.tableRole] || f.descRole, "data"}, // 3
-		{f.datatable0, "layout"},                      // 4
-		{f.nested, "layout"},                          // 5
-		{f.rows <= 1 || f.cols <= 1, "layout"},        // 6
-		{f.headerStruct, "data"},                      // 7
-		{f.cellFeature, "data"},                       // 8
-		{f.summary, "data"},                           // 9
-		{f.cols >= 5, "data"},                         // 10
-		{f.rows >= 20, "data"},                        // 11
-		{f.cells <= 10, "layout"},                     // 12
-		{f.object, "layout"},                          // 13
-		{true, "data"},                                // 14 otherwise
+		{f.datatable0, "layout"},               // 4
+		{f.nested, "layout"},                   // 5
+		{f.rows <= 1 || f.cols <= 1, "layout"}, // 6
+		{f.headerStruct, "data"},               // 7
+		{f.cellFeature, "data"},                // 8
+		{f.summary, "data"},                    // 9
+		{f.cols >= 5, "data"},                  // 10
+		{f.rows >= 20, "data"},                 // 11
+		{f.cells <= 10, "layout"},              // 12
+		{f.object, "layout"},                   // 13
+		{true, "data"},                         // 14 otherwise
 	}
 	verdict, deciding := "", 0
 	var holds []int
